@@ -318,8 +318,8 @@ def handleXC (verb : String) (args : List String) : Option String :=
     match run r.follow r.roots r.args { script := script, budget := budget } with
     | some res =>
       if res.gs.panicked then pure "panic"
-      else pure s!"st={res.ret} inv={if res.gs.execs.isEmpty then "." else ";".intercalate (res.gs.execs.map showExecCompact)}"
-    | none => pure "st=1 inv=."
+      else pure s!"st={res.ret} inv={if res.gs.execs.isEmpty then "." else ";".intercalate (res.gs.execs.map showExecCompact)} outlen={res.gs.out.length}"
+    | none => pure "st=1 inv=. outlen=0"
   | _, _ => none
 
 /-- compact form: all reached paths were delivered (counted), each to a command running in the
@@ -327,7 +327,8 @@ def handleXC (verb : String) (args : List String) : Option String :=
     recorder ran), status 0 -/
 def predXC (req obs : List String) : Option Bool :=
   match req, obs with
-  | ["findxc", f, roots, as, script, _], [st, inv] => do
+  | ["findxc", f, roots, as, script, _], [st, inv, ol] => do
+    let ol ← (ol.dropPrefix? "outlen=").bind (·.toString.toNat?)
     let r ← parseReq [f, roots, as]
     let script ← (splitList script).mapM String.toNat?
     let st ← (st.dropPrefix? "st=").bind (·.toString.toNat?)
@@ -340,7 +341,9 @@ def predXC (req obs : List String) : Option Bool :=
       -- the working directory of the command each path was handed to
       let obsCwds := (argcs.zip cwds).flatMap fun (n, c) => List.replicate (n - 1 - fixed.length) c
       let expCwds := reached.map fun e => (match e.cwd with | none => [46] | some d => normDir d)
-      pure (delivered == reached.length && obsCwds == expCwds && ((st == 0) == (ref.ret == 0 && script.all (· == 0))))
+      -- (what the expression writes besides: the action is always true, so nothing after `-o`)
+      pure (delivered == reached.length && obsCwds == expCwds && ol == ref.out.length &&
+        ((st == 0) == (ref.ret == 0 && script.all (· == 0))))
     | _, _ => pure false
   | _, _ => none
 
